@@ -134,6 +134,11 @@ def mask_select(ex, args, kwargs, node):
         raise Unsupported("several boolean masks in one index")
     p = p[0]
     mask = idx[p]
+    if mask.rank == a.rank and mask.rank > 1 and p == 0 and len([i for i in args[1:] if i is not Ellipsis]) == 1:
+        # a[mask] with a mask of the array's own shape
+        for x, y in zip(mask.shape, a.shape):
+            _len_match(ex, x, y, node)
+        return Masked(a, mask, "all")
     if mask.rank != 1:
         raise Unsupported("multi-dimensional boolean mask")
     _len_match(ex, mask.shape[0], a.shape[p], node)
@@ -201,7 +206,10 @@ def masked_binop(ex, a, b, fn, kind):
             raise Unsupported("elementwise operation on arrays compressed by different masks")
         ra, rb = ma.full.rank, mb.full.rank
         hi, lo = (ma, mb) if ra >= rb else (mb, ma)
-        if hi.axis != lo.axis + (hi.full.rank - lo.full.rank):
+        if hi.axis == "all" or lo.axis == "all":
+            if hi.axis != lo.axis or ra != rb:
+                raise Unsupported("compressed axes do not align")
+        elif hi.axis != lo.axis + (hi.full.rank - lo.full.rank):
             raise Unsupported("compressed axes do not align under broadcasting")
         r = ex.elementwise2(ma.full, mb.full, fn, kind)
         return Masked(r, hi.mask, hi.axis)
@@ -224,6 +232,20 @@ def bulk_store(ex, a, idx, v, node):
     idx = _expand_idx(ex, a, idx)
     masks = [k for k, i in enumerate(idx) if _is_mask(i)]
     ivs = [z3.Int(fresh_name("s")) for _ in a.shape]
+    if len(masks) == 1 and idx[masks[0]].rank == a.rank and a.rank > 1:
+        mask = idx[masks[0]]
+        for x, y in zip(mask.shape, a.shape):
+            _len_match(ex, x, y, node)
+        if isinstance(v, Masked):
+            if v.axis != "all" or not same_mask(v.mask, mask):
+                raise Unsupported("scatter of an array compressed by a different mask")
+            newv = v.full.sel(*ivs)
+        elif is_scalar(v):
+            newv = v
+        else:
+            raise Unsupported("mask store of an uncompressed array")
+        a.set_term(z3.Lambda(ivs, z3.If(mask.sel(*ivs), ex.coerce_elem(a, newv, node), a.sel(*ivs))))
+        return
     if masks:
         if len(masks) != 1 or any(not isinstance(i, _SliceVal) or i.lo is not None or i.hi is not None
                                   for k, i in enumerate(idx) if k != masks[0]):
